@@ -255,7 +255,7 @@ def check_driver(case, ctx):
                     cs = ds.cases([("obs",), ("fcst",)], i, axis, k)
                     e = math.fsum(abs(o - f) for o, f in cs) / len(cs) if cs else float("nan")
                     g = float(row[nd + i])
-                    if not cmpx.close(g, e if math.isnan(e) else cmpx.fmt_sig(e, 6), 2e-6):
+                    if not cmpx.printed_ok(g, e, 6, rel=2e-6):
                         ctx.fail("C03/csv-values", dict(sub, axis=axis), "row %d input %d: mae %r, model %r" % (k, i, g, e))
 
 
